@@ -3,7 +3,7 @@
  "name": "xattr_hash_entry",
  "props": ["C15"],
  "level": "U",
- "tier": "wip",
+ "tier": "quick",
  "harness": "h_hash_entry",
  "enforce": ["ext2fs_ext_attr_hash_entry"],
  "loop_contracts": true,
@@ -21,7 +21,7 @@
  "name": "xattr_hash_entry_signed",
  "props": ["C15"],
  "level": "U",
- "tier": "wip",
+ "tier": "quick",
  "harness": "h_hash_entry_signed",
  "enforce": ["ext2fs_ext_attr_hash_entry_signed"],
  "loop_contracts": true,
@@ -37,7 +37,7 @@
  "name": "xattr_hash_entry_small",
  "props": ["C15"],
  "level": "B(4,8)",
- "tier": "wip",
+ "tier": "quick",
  "harness": "h_hash_entry_small",
  "unwind": 10,
  "unwind_reason": "bounded cross-check: name_len <= 4, value <= 8 bytes (2 words; the harness copies up to 8 bytes); loops unwound, unwinding assertions on",
@@ -51,7 +51,7 @@
  "name": "xattr_hash_entry3",
  "props": ["C15"],
  "level": "U",
- "tier": "wip",
+ "tier": "quick",
  "harness": "h_hash_entry3",
  "enforce": ["ext2fs_ext_attr_hash_entry3"],
  "replace": ["ext2fs_ext_attr_hash_entry", "ext2fs_ext_attr_hash_entry_signed", "read_ea_inode_hash"],
@@ -67,7 +67,7 @@
  "name": "ea_inode_ref_hash",
  "props": ["C15"],
  "level": "U",
- "tier": "wip",
+ "tier": "quick",
  "harness": "h_ea_inode_ref_hash",
  "functions": ["lib/ext2fs/ext_attr.c:ext2fs_get_ea_inode_ref", "lib/ext2fs/ext_attr.c:ext2fs_set_ea_inode_ref", "lib/ext2fs/ext_attr.c:ext2fs_get_ea_inode_hash", "lib/ext2fs/ext_attr.c:ext2fs_set_ea_inode_hash"],
  "assumes": [],
